@@ -385,6 +385,106 @@ Definition sd_check (id typ ncdf : Z) (open : Z -> bool) : option Z :=
   else let slot := SD_id_slot id in if sd_valid_slot slot ncdf open then Some slot else None.
 
 (* ------------------------------------------------------------------------------------------------ *)
+(** * CT: the table of open SD files (mfhdf file.c: _cdfs, _cdfs_size, _ncdf, _curr_opened, max_NC_open).
+    The position of a file in this table is the slot field of every SD id, so whatever reorganises the table
+    (NC_open growing it, NC_reset_maxopenfiles behind SDreset_maxopenfiles, ncclose freeing it) must leave every
+    open file at its position.  The guards and loop conditions are the expressions regenerated in Gen_Atom.v. *)
+
+Record cdftab := mkCT { ctab : list (option Z);      (* _cdfs ([] = NULL); Some o = NC* of object o *)
+                        cmax : Z;                     (* max_NC_open *)
+                        cncdf : Z;                    (* _ncdf: high water mark *)
+                        ccurr : Z }.                  (* _curr_opened *)
+Definition ct_init : cdftab := mkCT [] 32 0 0.
+
+Definition ct_size (t : cdftab) : Z := Z.of_nat (length (ctab t)).
+Definition slot_at (l : list (option Z)) (p : nat) : option Z :=
+  match nth_error l p with Some (Some o) => Some o | _ => None end.
+
+(** NC_check_id *)
+Definition ct_check (cdfid : Z) (t : cdftab) : option Z :=
+  if NC_check_range cdfid (cncdf t) =? 0 then None else slot_at (ctab t) (Z.to_nat cdfid).
+
+(** the backwards scan "for (old_idx = _cdfs_size - 1; old_idx >= 0 && _cdfs[old_idx] == NULL; old_idx--)" *)
+Fixpoint highest (l : list (option Z)) (i : Z) (acc : Z) : Z :=
+  match l with
+  | [] => acc
+  | x :: t => highest t (i + 1) (match x with Some _ => i | None => acc end)
+  end.
+
+(** the new list: NULL everywhere, then newlist[i] = _cdfs[i] while the copy condition holds
+    (one pass: position i of the new list looks at position i of the old one) *)
+Fixpoint ct_build (n : nat) (i size alloc : Z) (l : list (option Z)) : list (option Z) :=
+  match n with
+  | O => []
+  | S k => (if NC_reset_copy_cond i size alloc =? 0 then None else match l with x :: _ => x | [] => None end)
+           :: ct_build k (i + 1) size alloc (tl l)
+  end.
+Definition ct_newlist (alloc : Z) (l : list (option Z)) : list (option Z) :=
+  ct_build (Z.to_nat alloc) 0 (Z.of_nat (length l)) alloc l.
+
+(** NC_reset_maxopenfiles(req_max); lim = MAX_AVAIL_OPENFILES *)
+Definition ct_reset (req lim : Z) (t : cdftab) : Z * cdftab :=
+  if negb (NC_reset_neg_guard req =? 0) then (-1, t)
+  else match ctab t with
+  | [] => let size := if req =? 0 then cmax t else req in
+          (size, mkCT (repeat None (Z.to_nat size)) size (cncdf t) (ccurr t))
+  | _ =>
+      if negb (NC_reset_curr_guard req (ccurr t) =? 0) then (ct_size t, t)
+      else
+        let alloc := if NC_reset_limit_cond req lim =? 0 then req else lim in
+        let old := highest (ctab t) 0 (-1) in
+        if negb (NC_reset_guard alloc old =? 0) then (ct_size t, t)
+        else (alloc, mkCT (ct_newlist alloc (ctab t)) alloc
+                          (if NC_reset_clamp_cond (cncdf t) alloc =? 0 then cncdf t else alloc) (ccurr t))
+  end.
+
+Fixpoint first_free (l : list (option Z)) (i n : Z) : Z :=          (* for (cdfid = 0; cdfid < _ncdf; cdfid++) if NULL break *)
+  match l with
+  | [] => n
+  | x :: t => if n <=? i then n else match x with None => i | Some _ => first_free t (i + 1) n end
+  end.
+
+Fixpoint set_slot (l : list (option Z)) (p : nat) (v : option Z) : list (option Z) :=
+  match l, p with
+  | [], _ => []
+  | _ :: t, O => v :: t
+  | x :: t, S k => x :: set_slot t k v
+  end.
+
+(** NC_open: returns the position (or -1) *)
+Definition ct_open (obj lim : Z) (t : cdftab) : Z * cdftab :=
+  let '(pos, t1, ok) :=
+    match ctab t with
+    | [] => let '(r, t1) := ct_reset 0 lim t in (0, t1, negb (r =? -1))
+    | _ => let pos := first_free (ctab t) 0 (cncdf t) in
+           if NC_open_grow_cond pos (ct_size t) (cncdf t) (cmax t) =? 0 then (pos, t, true)
+           else if cmax t =? lim then (pos, t, false)
+           else let '(r, t1) := ct_reset lim lim t in (pos, t1, negb (r =? -1))
+    end in
+  if ok then
+    (pos, mkCT (set_slot (ctab t1) (Z.to_nat pos) (Some obj)) (cmax t1)
+               (if pos =? cncdf t1 then cncdf t1 + 1 else cncdf t1) (ccurr t1 + 1))
+  else (-1, t1).
+
+(** ncclose (the part that touches the table) *)
+Definition ct_close (cdfid : Z) (t : cdftab) : Z * cdftab :=
+  match ct_check cdfid t with
+  | None => (-1, t)
+  | Some _ =>
+      let n := if NC_close_top_cond cdfid (cncdf t) =? 0 then cncdf t else cncdf t - 1 in
+      if ccurr t - 1 =? 0 then (0, mkCT [] (cmax t) 0 0)                  (* ncreset_cdflist: list freed, _ncdf = 0 *)
+      else (0, mkCT (set_slot (ctab t) (Z.to_nat cdfid) None) (cmax t) n (ccurr t - 1))
+  end.
+
+Inductive ctop := CTOpen (obj : Z) | CTClose (cdfid : Z) | CTReset (req : Z).
+Definition ct_step (lim : Z) (o : ctop) (t : cdftab) : Z * cdftab :=
+  match o with
+  | CTOpen obj => ct_open obj lim t
+  | CTClose c => ct_close c t
+  | CTReset r => ct_reset r lim t
+  end.
+
+(* ------------------------------------------------------------------------------------------------ *)
 (** * HT: the abstract handle table -- oracle (monitor) for the mixed-interface histories.
 
     The monitor reads the trace of the real library: for every call, which handle kind the call expects,
